@@ -239,6 +239,12 @@ def gen_cases(ctx, hook):
                       "clients": ctx.rng.choice([1, 2, 3]), "topics": ctx.rng.choice([1, 2, 2]),
                       "publishers": ctx.rng.choice([2, 3, 4]), "per_pub": ctx.rng.choice([40, 80, 150]),
                       "churn": k % 3 == 2, "seed": ctx.rng.randrange(1 << 30)})
+    for k in range(3 if quick else 10):
+        # a short heartbeat: consumers that poll all the time are never taken offline, whatever the heartbeat goroutines do
+        cid += 1
+        cases.append({"id": cid, "kind": "stress", "mode": "traffic", "timeout_ms": 3000, "heartbeat_ms": ctx.rng.choice([300, 400]),
+                      "clients": ctx.rng.choice([1, 2]), "topics": 1, "publishers": 2, "per_pub": 700,
+                      "churn": False, "seed": ctx.rng.randrange(1 << 30), "pace_us": 1000})
     for k in range(4 if quick else 16):
         cid += 1
         cases.append({"id": cid, "kind": "stress", "mode": "timeouts", "timeout_ms": ctx.rng.choice([10, 15, 20]),
@@ -758,6 +764,12 @@ def run_prosumer(ctx, exe):
         return {"kind": "prosumer", "timeout_ms": rng.choice([300, 1000]), "heartbeat_ms": 10000, "psteps": steps,
                 "welcome": welcome, "lag_ms": rng.choice([30, 60])}
 
+    # a subscriber whose poll waits through one or more broker-side poll time-outs before anything is published keeps polling
+    for tmo, idle in ((100, 350), (150, 200), (80, 500)):
+        cid += 1
+        cases.append({"id": cid, "kind": "prosumer", "timeout_ms": tmo, "heartbeat_ms": 10000, "welcome": [], "lag_ms": 0,
+                      "psteps": [["sub", "a"], ["sleep", idle], ["push", "a", "after-idle-1"], ["sleep", 30], ["push", "a", "after-idle-2"],
+                                 ["sub", "b"], ["sleep", idle], ["push", "b", "b-after-idle"], ["push", "a", "after-idle-3"]]})
     for order in (["a", "b"], ["a", "b", "c"], ["b", "a"]):
         for welcome in ([], order[1:], order, order[-1:]):
             for traffic in (0, 1, 2):
